@@ -56,10 +56,13 @@ def make_cells(rng, recs, d, n, hostile):
     pool = [u + rng.choice(["1", "x/y", ""]) for u in allu] + [p + d + rng.choice(["1", "0002", "", "no!", p + d + "7"]) for p in allp]
     # (unconvertible cells that pass through unchanged, among them ones a spreadsheet would read as formulas - seed C16-R)
     bad = ["zz" + d + "1", "nodelim", "", "http://nope/1", d, "-", "+1 555 0100", "@id", "=x", "=1+1", "\tx", "'q"]
+    # (a convertible value with a blank, a tab or a no-break space at either edge is another string: usually unconvertible,
+    #  and when it converts the blank belongs to the identifier - seed C16-U: primitives that strip)
+    edged = [rng.choice([" ", "\t", "\u00a0", "  "]) + x for x in pool[:3]] + [x + rng.choice([" ", "\t", "\u00a0", " \n"[:1]]) for x in pool[:4]]
     cells = []
     for _ in range(n):
         r = rng.random()
-        cells.append(rng.choice(pool) if r < 0.6 or not hostile else rng.choice(bad + pool))
+        cells.append(rng.choice(pool) if r < 0.6 or not hostile else rng.choice(bad + pool + edged))
     return cells
 
 
